@@ -38,6 +38,9 @@ type methSpec struct {
 	rows      int  // ListSearch
 	simplex   bool // NelderMead with an initial simplex
 	gradStop  int  // 0 default (1e-12), 1 NaN (disabled), 2 explicit 1e-7
+	nmParams  bool // NelderMead: explicit Reflection/Expansion/Contraction/Shrink/SimplexSize
+	cmaChol   bool // CmaEsChol: user-supplied InitCholesky
+	cmaStep   bool // CmaEsChol: explicit InitStepSize
 }
 
 func (m methSpec) local() bool      { return m.kind <= mNM }
@@ -121,13 +124,14 @@ type caseSpec struct {
 	obj   *objective
 	seed  uint64
 	reuse bool
+	run   int // position in a history of runs with the same method value (0 = fresh value)
 }
 
 func (cs *caseSpec) describe() string {
-	return fmt.Sprintf("Minimize group=%s method=%s ls=%s/%d step=%d store=%d pop=%d rows=%d simplex=%v gradStop=%d obj=%s dim=%d fault=%s k=%d gfault=%s limF=%d limG=%d limH=%d limMaj=%d runtime=%v gradThr=%v conv=%d/%d init=%d conc=%d rec=%s cb=%d/%d noValve=%v yields=%v reuse=%v seed=%d",
-		cs.group, cs.m.name(), cs.m.lsName(), cs.m.lsParam, cs.m.stepSizer, cs.m.store, cs.m.pop, cs.m.rows, cs.m.simplex, cs.m.gradStop,
+	return fmt.Sprintf("Minimize group=%s method=%s ls=%s/%d step=%d store=%d pop=%d rows=%d simplex=%v nmParams=%v cmaChol=%v cmaStep=%v gradStop=%d obj=%s dim=%d fault=%s k=%d gfault=%s limF=%d limG=%d limH=%d limMaj=%d runtime=%v gradThr=%v conv=%d/%d init=%d conc=%d rec=%s cb=%d/%d noValve=%v yields=%v reuse=%v run=%d seed=%d",
+		cs.group, cs.m.name(), cs.m.lsName(), cs.m.lsParam, cs.m.stepSizer, cs.m.store, cs.m.pop, cs.m.rows, cs.m.simplex, cs.m.nmParams, cs.m.cmaChol, cs.m.cmaStep, cs.m.gradStop,
 		cs.obj.name, cs.obj.dim, cs.ft.name(), cs.ft.k, cs.gft.name(), cs.s.limF, cs.s.limG, cs.s.limH, cs.s.limMaj, cs.s.runtime, cs.s.gradThr, cs.s.conv, cs.s.convK,
-		cs.s.init, cs.s.concurrent, recDesc(cs.s), cs.s.cbK, cs.s.cbKind, cs.s.noValve, cs.s.yields, cs.reuse, cs.seed)
+		cs.s.init, cs.s.concurrent, recDesc(cs.s), cs.s.cbK, cs.s.cbKind, cs.s.noValve, cs.s.yields, cs.reuse, cs.run, cs.seed)
 }
 
 func recDesc(s setSpec) string {
@@ -156,6 +160,16 @@ func (u *uniformRander) Rand(x []float64) []float64 {
 }
 
 type builtMethod struct {
+	// snapshots of the data the user handed to the method value; Minimize
+	// must not modify any of it (and the harness registers the initial
+	// simplex of later runs from the snapshot, i.e. as the user supplied it).
+	nmVertsSnap  [][]float64
+	nmValuesSnap []float64
+	locsSnap     []float64
+	chol         *mat.Cholesky
+	cholSnap     []float64
+	runs         int
+
 	m        optimize.Method
 	ls       *lsWrap
 	nmValues []float64
@@ -246,6 +260,9 @@ func (ms methSpec) build(o *objective, r *vrt.Rand, led *ledger) *builtMethod {
 		b.m = &optimize.Newton{Linesearcher: ls, GradStopThreshold: gs}
 	case mNM:
 		nm := &optimize.NelderMead{}
+		if ms.nmParams {
+			nm.Reflection, nm.Expansion, nm.Contraction, nm.Shrink, nm.SimplexSize = 1.2, 2.5, 0.4, 0.6, 0.3
+		}
 		if ms.simplex {
 			d := o.dim
 			b.nmVerts = make([][]float64, d+1)
@@ -261,10 +278,44 @@ func (ms methSpec) build(o *objective, r *vrt.Rand, led *ledger) *builtMethod {
 			}
 			nm.InitialVertices = b.nmVerts
 			nm.InitialValues = b.nmValues
+			for _, v := range b.nmVerts {
+				b.nmVertsSnap = append(b.nmVertsSnap, append([]float64(nil), v...))
+			}
+			b.nmValuesSnap = append([]float64(nil), b.nmValues...)
 		}
 		b.m = nm
 	case mCMA:
-		b.m = &optimize.CmaEsChol{Population: ms.pop, ForgetBest: ms.forget, Src: vrt.NewRand(r.Uint64())}
+		cma := &optimize.CmaEsChol{Population: ms.pop, ForgetBest: ms.forget, Src: vrt.NewRand(r.Uint64())}
+		if ms.cmaStep {
+			cma.InitStepSize = 0.3
+		}
+		if ms.cmaChol {
+			d := o.dim
+			a := mat.NewSymDense(d, nil)
+			bb := make([]float64, d*d)
+			for i := range bb {
+				bb[i] = 0.4 * r.Sym()
+			}
+			for i := 0; i < d; i++ {
+				for j := i; j < d; j++ {
+					v := 0.0
+					for k := 0; k < d; k++ {
+						v += bb[k*d+i] * bb[k*d+j]
+					}
+					if i == j {
+						v += 0.5
+					}
+					a.SetSym(i, j, v)
+				}
+			}
+			b.chol = &mat.Cholesky{}
+			if !b.chol.Factorize(a) {
+				panic("c19: InitCholesky not positive definite")
+			}
+			cma.InitCholesky = b.chol
+			b.cholSnap = cholData(b.chol)
+		}
+		b.m = cma
 	case mGAC:
 		b.m = &optimize.GuessAndCheck{Rander: &uniformRander{r: vrt.NewRand(r.Uint64()), centre: append([]float64(nil), o.x0...), half: 3}}
 	case mLS:
@@ -279,6 +330,54 @@ func (ms methSpec) build(o *objective, r *vrt.Rand, led *ledger) *builtMethod {
 			}
 		}
 		b.m = &optimize.ListSearch{Locs: b.locs}
+		b.locsSnap = append([]float64(nil), b.locs.RawMatrix().Data...)
 	}
 	return b
+}
+
+func cholData(c *mat.Cholesky) []float64 {
+	n := c.SymmetricDim()
+	u := c.RawU()
+	d := make([]float64, 0, n*(n+1)/2)
+	for i := 0; i < n; i++ {
+		for j := i; j < n; j++ {
+			d = append(d, u.At(i, j))
+		}
+	}
+	return d
+}
+
+// rebind prepares a method value that has already been used for another
+// judged run: the line-search wrapper starts a fresh record and the initial
+// simplex is registered as the user supplied it.
+func (b *builtMethod) rebind(led *ledger) {
+	if b.ls != nil {
+		b.ls.accepts, b.ls.nAccept, b.ls.errs = nil, 0, nil
+		b.ls.inits, b.ls.iters, b.ls.itersCur, b.ls.maxIters, b.ls.histN = 0, 0, 0, 0, 0
+	}
+	for i, v := range b.nmVertsSnap {
+		led.known(v, b.nmValuesSnap[i])
+	}
+}
+
+// mutatedUserData lists the user-supplied data of the method value that no
+// longer has the bits it was handed in with.
+func (b *builtMethod) mutatedUserData() []string {
+	var l []string
+	for i, v := range b.nmVertsSnap {
+		if !sameFloats(v, b.nmVerts[i]) {
+			l = append(l, "NelderMead.InitialVertices")
+			break
+		}
+	}
+	if b.nmValuesSnap != nil && !sameFloats(b.nmValuesSnap, b.nmValues) {
+		l = append(l, "NelderMead.InitialValues")
+	}
+	if b.locsSnap != nil && !sameFloats(b.locsSnap, b.locs.RawMatrix().Data) {
+		l = append(l, "ListSearch.Locs")
+	}
+	if b.cholSnap != nil && !sameFloats(b.cholSnap, cholData(b.chol)) {
+		l = append(l, "CmaEsChol.InitCholesky")
+	}
+	return l
 }
